@@ -251,7 +251,8 @@ class LazyCall:
         return f"{self.callee}({', '.join(args + kwargs)})"
 
     def __hash__(self):
-        return hash((self.callee, *self.args, *self.kwargs))
+        # Keyword order does not matter for equality, so it must not matter here either
+        return hash((self.callee, *self.args, *sorted(self.kwargs)))
 
     def __eq__(self, other):
         return (
